@@ -9,6 +9,7 @@ import re
 import common
 import pyir_circuit
 import pyir_classify
+import pyir_failure
 import pyir_translate
 
 THEOREMS = ["consume_ir_correct", "remaining_ir_correct", "init_ir_correct", "ir_run_correct", "source_meets_spec"]
@@ -111,14 +112,39 @@ def classify_tie(chk):
                                "model's search_sqlstate / search_bracketed"]}
 
 
+FAILURE_THEOREMS = ["handle_failure_ir_correct", "source_decision"]
+
+
+def failure_tie(chk):
+    """_RetryState._handle_failure (policy/state.py) -> a PyIRF program + obligation (coq/templates/FailureIRProofs.v.in): the
+    translated function is Runner.handle_failure (decision, state, events) for every input."""
+    out = os.path.join(chk.workdir, "FailureIR.v")
+    tpl = os.path.join(common.COQ, "templates", "FailureIRProofs.v.in")
+    try:
+        prog = pyir_failure.generate(os.path.join(common.REPO, "src"), out, tpl)
+    except pyir_translate.TranslationError as e:
+        return {"ok": False, "stage": "translate", "detail": f"_RetryState._handle_failure is outside the translated fragment: {e}"}
+    except (OSError, SyntaxError) as e:
+        return {"ok": False, "stage": "translate", "detail": f"redress/policy/state.py could not be read: {e}"}
+    rc, stdout, stderr, wall = common.run(["coqc", "-Q", common.THEORIES, "Redress", "-w", "none", out], 600, cwd=chk.workdir)
+    if rc != 0:
+        return {"ok": False, "stage": "proof", "theorem": "handle_failure_ir_correct",
+                "detail": f"the translated _handle_failure no longer proves equal to Runner.handle_failure: {stderr.strip()[-600:]}",
+                "ir": {"_handle_failure": prog}}
+    return {"ok": True, "stage": "done", "theorems": FAILURE_THEOREMS, "closed_under_global_context": stdout.count("Closed under the global context"),
+            "seconds": round(wall, 1), "functions": ["_RetryState._handle_failure"],
+            "not_translated": ["the four runner loops, _finalize_attempt and the sleep protocol (retry_helpers.py), emit / record_failure / "
+                               "_select_strategy / _build_backoff_context (their meaning is the corresponding Runner.v operation)"]}
+
+
 def report(chk, tie, name, searched):
     """shared bookkeeping: coverage, obligations, and the violation when the tie is broken and nothing else was found"""
     chk.coverage["source_translation"] = {k: v for k, v in tie.items() if k != "ir"}
-    n = len(tie.get("theorems") or {"circuit": CIRCUIT_THEOREMS, "classify": CLASSIFY_THEOREMS}.get(name, THEOREMS))
+    n = len(tie.get("theorems") or {"circuit": CIRCUIT_THEOREMS, "classify": CLASSIFY_THEOREMS, "failure": FAILURE_THEOREMS}.get(name, THEOREMS))
     chk.coverage["obligations"] = chk.coverage.get("obligations", 0) + n
     if tie["ok"]:
         chk.coverage["discharged"] = chk.coverage.get("discharged", 0) + n
-        mod = {"circuit": "CircuitIR", "classify": "ClassifyIR"}.get(name, "BudgetIR")
+        mod = {"circuit": "CircuitIR", "classify": "ClassifyIR", "failure": "FailureIR"}.get(name, "BudgetIR")
         chk.coverage["theorems"] = list(chk.coverage.get("theorems", [])) + [f"{mod}.{t}" for t in tie["theorems"]]
     elif not chk.violations:
         chk.violation({"kind": "source-translation", "what": tie["detail"], "stage": tie["stage"],
